@@ -487,7 +487,62 @@ fn typed_use(a: &mut Asm, r: &mut Rng, scratch_slot: U256) {
 /// One storage fragment on slot `s`; stack-neutral.
 fn storage_fragment(a: &mut Asm, r: &mut Rng, s: U256, slots: &[U256]) {
     let other = *r.pick(slots);
-    match r.below(20) {
+    match r.below(23) {
+        20 => {
+            // proxy-slot idiom, ABI-encoded: keccak(abi.encode("text")) with
+            // the pointer word, a length word (right, zero or wrong) and data
+            let text: &[u8] = *r.pick(&[&b"eip1967.proxy.implementation"[..], &b"my.slot"[..], &b"a"[..]]);
+            let mut word = [0u8; 32];
+            word[..text.len()].copy_from_slice(text);
+            let len = match r.below(4) {
+                0 => 0,
+                1 => text.len() as u128 + 1,
+                _ => text.len() as u128,
+            };
+            a.push_u(0x20).op(op::PUSH0).op(op::MSTORE);
+            a.push_u(len).push_u(0x20).op(op::MSTORE);
+            a.push(U256::from_be_bytes(word)).push_u(0x40).op(op::MSTORE);
+            a.push_u(0x60).op(op::PUSH0).op(op::SHA3);
+            if r.chance(1, 2) {
+                a.op(op::SLOAD);
+                typed_use(a, r, other);
+            } else {
+                typed_value(a, r);
+                a.swap(1).op(op::SSTORE);
+            }
+        }
+        21 => {
+            // a field extracted by dividing by a shifted power of two:
+            // (x / (2^n << s)) & mask, the shift now and then absurd
+            a.push(s).op(op::SLOAD);
+            let n = r.below(4) as u32;
+            a.push(U256::ONE << n);
+            if r.chance(1, 4) {
+                a.push(boundary_constant(r));
+            } else {
+                a.push_u(8 * r.below(24) as u128);
+            }
+            a.op(op::SHL).swap(1).op(op::DIV);
+            a.push(mask(*r.pick(&[8u32, 32, 64, 160]))).op(op::AND);
+            a.push(other).op(op::SSTORE);
+        }
+        22 => {
+            // the short-string slot layout (flag bit, 7 length bits, 248 data
+            // bits) written in one store, its parts also kept elsewhere, the
+            // slot also used as the base of its long form
+            typed_value(a, r);
+            a.dup(1).push(*r.pick(slots)).op(op::SSTORE);
+            a.push_u(1).op(op::AND);
+            typed_value(a, r);
+            a.dup(1).push(*r.pick(slots)).op(op::SSTORE);
+            a.push_u(0x7f).op(op::AND).push_u(1).op(op::SHL).op(op::OR);
+            typed_value(a, r);
+            a.push(mask(248)).op(op::AND).push_u(8).op(op::SHL).op(op::OR);
+            a.push(s).op(op::SSTORE);
+            a.push(s);
+            array_hash(a, r, None);
+            a.op(op::SLOAD).op(op::POP);
+        }
         17 => {
             // proxy-slot idiom: the slot is the hash of an ASCII string held
             // in memory, optionally minus one (added as 2^256 - 1)
@@ -701,6 +756,14 @@ pub fn gen_storage(r: &mut Rng) -> Vec<u8> {
             slots.push(s);
         }
     }
+    if r.chance(1, 10) {
+        // a slot that only differs from another one in its high bits
+        let base = *r.pick(&slots);
+        let alias = base.wrapping_add(U256::ONE << *r.pick(&[64u32, 128, 248, 255]));
+        if !slots.contains(&alias) {
+            slots.push(alias);
+        }
+    }
     // Mostly a handful of dispatch branches; now and then a contract-sized
     // dispatcher (dozens of branches, a few thousand bytes, hundreds of values).
     let branches = match r.below(60) {
@@ -867,10 +930,32 @@ pub fn gen_growth(r: &mut Rng) -> Vec<u8> {
         _ => a.push(small_or_boundary(r)),
     };
     let cap = if r.chance(1, 3) { 200 } else { 70 };
-    let n = 10 + r.usize_below(cap);
-    let unit = r.below(9);
+    // Mostly tens of steps; now and then thousands (deep trees, deep
+    // recursion, long-lived memoised sizes).
+    let n = if r.chance(1, 25) { 1000 + r.usize_below(5000) } else { 10 + r.usize_below(cap) };
+    let unit = r.below(13);
     for i in 0..n {
-        match if r.chance(1, 10) { r.below(9) } else { unit } {
+        match if r.chance(1, 10) { r.below(13) } else { unit } {
+            9 => {
+                // a unary operation applied to its own result
+                a.op(*r.pick(&[op::SLOAD, op::SLOAD, op::MLOAD, op::CALLDATALOAD, op::BALANCE, op::EXTCODEHASH, op::EXTCODESIZE, op::BLOCKHASH, op::ISZERO, op::NOT]));
+            }
+            10 => {
+                // CREATE2 with the previous result as its salt
+                a.op(op::PUSH0).op(op::PUSH0).op(op::PUSH0).op(op::CREATE2);
+            }
+            11 => {
+                // CREATE / CALL with the previous result as value / address
+                if r.chance(1, 2) {
+                    a.op(op::PUSH0).op(op::PUSH0).swap(2).op(op::CREATE);
+                } else {
+                    a.op(op::PUSH0).op(op::PUSH0).op(op::PUSH0).op(op::PUSH0).op(op::PUSH0).swap(5).op(op::GAS).op(op::CALL);
+                }
+            }
+            12 => {
+                // the previous result as a log topic, kept on the stack too
+                a.dup(1).op(op::PUSH0).op(op::PUSH0).op(op::LOG0 + 1);
+            }
             0 => {
                 a.dup(1).op(op::ADD);
             }
@@ -926,6 +1011,44 @@ pub fn gen_growth(r: &mut Rng) -> Vec<u8> {
         }
     }
     a.op(op::STOP);
+    a.finish()
+}
+
+// ---------------------------------------------------------------------------
+// W-wide: one value fanned out into very many places (huge equivalence
+// classes, long representative chains)
+// ---------------------------------------------------------------------------
+
+pub fn gen_wide(r: &mut Rng) -> Vec<u8> {
+    let mut a = Asm::new();
+    if r.chance(1, 3) {
+        // one slot used as a dynamic array through hundreds of element
+        // writes (hundreds of distinct pieces of evidence on one class) and
+        // also written directly with two unrelated words
+        let s = r.below(3) as u128;
+        let n = 260 + r.usize_below(400);
+        a.op(op::CALLER).push_u(s).op(op::SSTORE);
+        for i in 0..n {
+            a.push_u(i as u128).op(op::CALLDATALOAD);
+            a.push(keccak_word(U256::from(s))).push_u(i as u128).op(op::ADD).op(op::SSTORE);
+        }
+        a.push_u(4).op(op::CALLDATALOAD).op(op::ISZERO).push_u(s).op(op::SSTORE);
+        a.op(op::STOP);
+        return a.finish();
+    }
+    a.push_u(r.below(3) as u128).op(op::SLOAD);
+    // the value also lands in two constant slots that carry other evidence
+    a.dup(1).push_u(1).op(op::SSTORE);
+    a.op(op::CALLER).push_u(1).op(op::SSTORE);
+    a.dup(1).push_u(2).op(op::SSTORE);
+    a.push_u(4).op(op::CALLDATALOAD).op(op::ISZERO).push_u(2).op(op::SSTORE);
+    let cap = if r.chance(1, 3) { 3000 } else { 900 };
+    let n = 300 + r.usize_below(cap);
+    for i in 0..n {
+        // sstore(calldataload(i), value): a fresh symbolic key every time
+        a.dup(1).push_u(i as u128).op(op::CALLDATALOAD).op(op::SSTORE);
+    }
+    a.op(op::POP).op(op::STOP);
     a.finish()
 }
 
@@ -1009,7 +1132,7 @@ pub fn gen_copy(r: &mut Rng) -> Vec<u8> {
     let n = 1 + r.usize_below(4);
     for _ in 0..n {
         let size = 32 * r.range(1, 40) as u128 + if r.chance(1, 4) { r.below(32) as u128 } else { 0 };
-        match r.below(6) {
+        match r.below(7) {
             0 => {
                 a.push_u(size).push_u(r.below(64) as u128).push_u(r.below(256) as u128).op(op::CALLDATACOPY);
             }
@@ -1017,8 +1140,25 @@ pub fn gen_copy(r: &mut Rng) -> Vec<u8> {
                 a.push_u(size).push_u(r.below(64) as u128).push_u(r.below(256) as u128).op(op::CODECOPY);
             }
             2 => {
-                a.push_u(size).push_u(r.below(64) as u128).push_u(r.below(256) as u128);
+                // source offsets small, around the 24 KiB code-size limit, and huge
+                let off: U256 = match r.below(5) {
+                    0 | 1 => U256::from(r.below(64)),
+                    2 => U256::from(0x5c00 + 0x100 * r.below(12)),
+                    3 => U256::from(0xff00u32),
+                    _ => boundary_constant(r),
+                };
+                a.push_u(size).push(off).push_u(r.below(256) as u128);
                 a.op(op::CALLER).op(op::EXTCODECOPY);
+            }
+            6 => {
+                // two paths reach the same copy instruction, one of them one
+                // operand short (it fails there), the other complete
+                let l = a.new_label();
+                a.push_u(size).push_u(r.below(64) as u128);
+                a.op(op::CALLDATASIZE).jumpi_to(l);
+                a.push_u(r.below(256) as u128);
+                a.place(l);
+                a.op(*r.pick(&[op::CALLDATACOPY, op::CODECOPY, op::RETURNDATACOPY]));
             }
             3 => {
                 a.push_u(size).push_u(r.below(64) as u128).push_u(r.below(256) as u128).op(op::RETURNDATACOPY);
@@ -1140,7 +1280,9 @@ pub fn gen_corpus(r: &mut Rng, corpus: &Corpus, max_len: usize) -> Vec<u8> {
 
 pub fn gen_knobs(r: &mut Rng) -> Knobs {
     Knobs {
-        gas_limit:        r.log_range(200, 30_000_000) as usize,
+        // up to the block limit mostly; any positive limit is valid, so now
+        // and then far beyond it
+        gas_limit:        if r.chance(1, 8) { 1_000_000_000_000 } else { r.log_range(200, 30_000_000) as usize },
         max_iterations:   r.range(1, 12) as usize,
         max_forks:        r.range(1, 60) as usize,
         value_size_limit: *r.pick(&[1usize, 2, 3, 5, 10, 50, 250, 1000]),
